@@ -422,7 +422,7 @@ Definition mat_obs_eqb (a : res (list row)) (b : mat_obs) : bool :=
   end.
 
 (* ========================================================================================== *)
-(* the allow-list and the recorded defects of the progress rule                                *)
+(* the allow-list of the progress rule                                                         *)
 (* ========================================================================================== *)
 Open Scope string_scope.
 
@@ -469,22 +469,20 @@ Definition allow_list : list loop_id :=
     (* nexusyielder.py:79  NexusTreeDataYielder._yield_items_from_stream (assume_newick_if_not_nexus)
          while True: tree = self._build_tree_from_newick_tree_string(..); if tree is None: break; yield
        the same loop as newickreader.py:296, through NewickReader._parse_tree_statement. *)
-    ("nexusyielder.py", "NexusTreeDataYielder._yield_items_from_stream", 1, "7d8becceb423") ].
-
-(* Loops that do NOT satisfy the rule and really hang (recorded defects; the harness replays a
-   hanging document for each and reports it under the key given here).  An entry stops matching
-   when the loop is repaired. *)
-Definition known_defect_loops : list loop_id :=
-  [ (* nexusreader.py:728 `while token != ';'` in _parse_link_statement: fetches only with
-       next_token (None at end of stream is never tested) and fetches nothing at all when the
-       token is neither TAXA nor CHARACTERS: `LINK FOO = x;` hangs on a complete document (F21).
-       finding key  nexus:Hang:_parse_link_statement *)
-    ("nexusreader.py", "NexusReader._parse_link_statement", 1, "fd920bb67b10");
-    (* nexusreader.py:1208 `while token != ';' and token != ',' and not is_eof()` in
-       _parse_positions: a token that is neither ALL nor a number takes no branch of the body, so
-       nothing is fetched: `CHARSET x = foo;` hangs on a complete document.
-       finding key  nexus:Hang:_parse_positions *)
-    ("nexusreader.py", "NexusReader._parse_positions", 1, "5a48d89eb260") ].
+    ("nexusyielder.py", "NexusTreeDataYielder._yield_items_from_stream", 1, "7d8becceb423");
+    (* newickyielder.py:67  NewickTreeDataYielder._yield_items_from_stream: the same loop once more
+         while True: tree = self.newick_reader._parse_tree_statement(..); if tree is None: break; yield tree *)
+    ("newickyielder.py", "NewickTreeDataYielder._yield_items_from_stream", 1, "57d1aa25ff1a");
+    (* tokenizer.py after the proposed fix 15 (notes/C20_fix_15.patch: the self re-entry of __next__ becomes a
+       loop): the unquoted-token scan of the first entry, now in `_scan_token` (same digest) ... *)
+    ("tokenizer.py", "Tokenizer._scan_token", 2, "18ffb29fcbad");
+    (* ... and the new rescan loop `while True: token = self._scan_token(); if token is not None: return token`.
+       `_scan_token` returns None only from the unquoted branch with an empty token and `_cur_char != ""`,
+       i.e. after a scan that consumed at least one character (an uncaptured delimiter or a comment; the
+       branch is entered on a significant character that is neither a captured delimiter nor a quote);
+       at end of stream it raises StopIteration.  Hence (P) and (E).  About the model this is
+       `tokenizer_progress` (Tokenizer.v `next_tok` re-enters on exactly that condition). *)
+    ("tokenizer.py", "Tokenizer.__next__", 1, "650182e8753b") ].
 
 (* Direct recursion in the reader modules (not loops, listed by the generator).  Depth is bounded by
    the input: `_parse_tree_node_description` recurses once per "(" / child token after consuming
